@@ -17,6 +17,10 @@ line each; table lines `dec`/`unp`/`lzu`/`excl` fill the parameter tables for th
   zip <method> <bitflag> <comp> <uncomp> <crc> <tailhex|none> <inflated hex|none>
   bzg <streamcrc8> (<hdrcrc8> <hex>)*   → bzDepack
   xzg <hdr12> <blockhdr> <check8> <index> <indexcrc8> <footer12> <payload>  → xzAccept (one piece)
+  lz2 <props> <consumed-input hex> <piece hex>*      (xz_dec_lzma2_reset/_run spy: one finished block)
+  inf <cap> <consumed-input hex> <outhex>            (tinfl_decompress spy: one member inflated to TINFL_STATUS_DONE)
+  zipf <filehex>           → zipDepack (whole miniz reader: EOCD search, central directory, member selection, extract)
+  xz <filehex>             → xzDepack (byte-level container model) with the lz2 table as LZMA2 decoder
 -/
 open Xmp Xmp.Crc Xmp.Gates
 
@@ -46,6 +50,8 @@ structure Tabs where
   unp : List ((Nat × Nat × Nat × Bytes) × Option Bytes) := []
   lzu : List ((Nat × Nat × Bytes) × Option Bytes) := []
   excl : List (Bytes × Bool) := []
+  lz2 : List (Nat × Bytes × List Bytes) := []      -- props, consumed input, output pieces
+  inf : List (Nat × Bytes × Bytes) := []           -- output capacity, consumed input, output
 
 /-- look-ups record a miss through an IO.Ref-free trick: the tables return a sentinel and the
     driver checks membership before running the model -/
@@ -110,6 +116,19 @@ partial def loop (h : IO.FS.Stream) (t : Tabs) : IO Unit := do
     loop h { t with lzu := ((m.toNat?.getD 0, n.toNat?.getD 0, parseHex i), optHex ok o) :: t.lzu }
   | ["excl", n, r] => loop h { t with excl := (parseHex n, r == "1") :: t.excl }
   | ["gzip", f] => IO.println (runGate t "gzip" 0 (parseHex f)); loop h {}
+  | "lz2" :: pr :: cons :: chunks =>
+    loop h { t with lz2 := t.lz2 ++ [(pr.toNat?.getD 0, parseHex cons, chunks.map parseHex)] }
+  | ["inf", cap, cons, o] => loop h { t with inf := t.inf ++ [(cap.toNat?.getD 0, parseHex cons, parseHex o)] }
+  | ["zipf", f] =>
+    let env : ZipEnv := {
+      inflate := fun comp cap => (t.inf.find? (fun e => e.1 == cap && e.2.1.isPrefixOf comp)).map (·.2.2),
+      excl := fun n => (lookupD t.excl n).getD false,
+      junk := fun n => if n ≤ 4096 then List.replicate n 0xbe else missMark }
+    IO.println (showRes (zipDepack env (parseHex f))); loop h {}
+  | ["xz", f] =>
+    let lz := fun (props : Nat) (inp : Bytes) =>
+      (t.lz2.find? (fun e => e.1 == props && e.2.1.isPrefixOf inp)).map (fun e => (e.2.1.length, e.2.2))
+    IO.println (showRes (xzDepack lz (parseHex f))); loop h {}
   | [k, lim, f] =>
     if k == "arc" || k == "arcfs" || k == "lzx" then
       IO.println (runGate t k (lim.toNat?.getD 0) (parseHex f)); loop h {}
